@@ -44,16 +44,24 @@ type op struct {
 	Rcp   int      // recipient: user index, -1 = malformed string, -3 = empty (= sender)
 	Dt    time.Duration
 	Fees  sdk.Coins // sent to the fee collector before the block
+	Up    int       // address strings written in upper case (still valid bech32): 1 validator, 2 sender, 4 recipient
+}
+
+func (o op) upStr() string {
+	if o.Up == 0 {
+		return ""
+	}
+	return fmt.Sprintf(" upper-case=%d", o.Up)
 }
 
 func (o op) String() string {
 	switch o.Kind {
 	case kClaim:
-		return fmt.Sprintf("claim u%d v%d", o.U, o.V)
+		return fmt.Sprintf("claim u%d v%d%s", o.U, o.V, o.upStr())
 	case kDelegate:
-		return fmt.Sprintf("delegate u%d v%d %s%s", o.U, o.V, o.Amt, denomNames[o.Dn])
+		return fmt.Sprintf("delegate u%d v%d %s%s%s", o.U, o.V, o.Amt, denomNames[o.Dn], o.upStr())
 	case kUndelegate:
-		return fmt.Sprintf("undelegate u%d v%d %s%s rcp=%d", o.U, o.V, o.Amt, denomNames[o.Dn], o.Rcp)
+		return fmt.Sprintf("undelegate u%d v%d %s%s rcp=%d%s", o.U, o.V, o.Amt, denomNames[o.Dn], o.Rcp, o.upStr())
 	case kSend:
 		return fmt.Sprintf("send-share u%d->u%d v%d %s", o.U, o.U2, o.V, o.Amt)
 	default:
@@ -100,6 +108,13 @@ func (w *world) unknownValidator() string {
 	s, err := w.h.App.StakingKeeper.ValidatorAddressCodec().BytesToString(authtypes.NewModuleAddress("c10-no-such-validator"))
 	if err != nil {
 		panic(err)
+	}
+	return s
+}
+
+func (o op) spell(s string, bit int) string {
+	if o.Up&bit != 0 {
+		return strings.ToUpper(s)
 	}
 	return s
 }
@@ -152,12 +167,12 @@ func (w *world) apply(o op) outcome {
 	switch o.Kind {
 	case kClaim:
 		err = apph.Tx(w.msgCtx(), func(ctx sdk.Context) error {
-			_, e := srv.ClaimRewards(ctx, &sctypes.MsgClaimRewards{Sender: h.Accts[o.U].Addr.String(), ValidatorAddress: w.valAddr(o.V)})
+			_, e := srv.ClaimRewards(ctx, &sctypes.MsgClaimRewards{Sender: o.spell(h.Accts[o.U].Addr.String(), 2), ValidatorAddress: o.spell(w.valAddr(o.V), 1)})
 			return e
 		})
 	case kDelegate:
 		err = apph.Tx(w.msgCtx(), func(ctx sdk.Context) error {
-			_, e := srv.NonVotingDelegate(ctx, &sctypes.MsgNonVotingDelegate{Sender: h.Accts[o.U].Addr.String(), ValidatorAddress: w.valAddr(o.V),
+			_, e := srv.NonVotingDelegate(ctx, &sctypes.MsgNonVotingDelegate{Sender: o.spell(h.Accts[o.U].Addr.String(), 2), ValidatorAddress: o.spell(w.valAddr(o.V), 1),
 				Amount: sdk.Coin{Denom: denomNames[o.Dn], Amount: sdkmath.NewIntFromBigInt(o.Amt)}})
 			return e
 		})
@@ -170,8 +185,8 @@ func (w *world) apply(o op) outcome {
 			rcp = "sunrise1notanaddress"
 		}
 		err = apph.Tx(w.msgCtx(), func(ctx sdk.Context) error {
-			r, e := srv.NonVotingUndelegate(ctx, &sctypes.MsgNonVotingUndelegate{Sender: h.Accts[o.U].Addr.String(), ValidatorAddress: w.valAddr(o.V),
-				Amount: sdk.Coin{Denom: denomNames[o.Dn], Amount: sdkmath.NewIntFromBigInt(o.Amt)}, Recipient: rcp})
+			r, e := srv.NonVotingUndelegate(ctx, &sctypes.MsgNonVotingUndelegate{Sender: o.spell(h.Accts[o.U].Addr.String(), 2), ValidatorAddress: o.spell(w.valAddr(o.V), 1),
+				Amount: sdk.Coin{Denom: denomNames[o.Dn], Amount: sdkmath.NewIntFromBigInt(o.Amt)}, Recipient: o.spell(rcp, 4)})
 			if e == nil {
 				out.Ct = r.CompletionTime.UnixNano()
 				if !r.Amount.Amount.IsNil() {
